@@ -22,7 +22,7 @@ ASSUMPTIONS = ['io.TextIOBase.read(n) may return fewer than n characters; only a
                'a segment with no non-empty element is compared in normal form only (format() writes "SE*~" for "SE~")',
                'path sources are restricted to ASCII text (the reader opens files as ASCII by design)']
 REQUIRED_COUNTERS = ['texts', 'reads', 'segments-compared', 'straddling-segments', 'sources:path', 'sources:file', 'sources:short-reads', 'roundtrips',
-                     'expected:leading-blank', 'expected:trailing-sep', 'texts:long-segment', 'texts:empty-segment']
+                     'expected:leading-blank', 'expected:trailing-sep', 'texts:long-segment', 'texts:empty-segment', 'texts:text-after-last-terminator']
 MIN_CASES = {'quick': 1300, 'thorough': 30000}
 
 CHUNKS = [1, 7, 105, 106, 107, 4096, 8191, 8192, 8193]
@@ -123,6 +123,12 @@ def soup(rng, quick):
             out.append(pre + segment())
         out.append(seg_t)
         out.append(eol)
+    if rng.random() < 0.15:
+        # characters after the last terminator (end-of-file mark, padding, free text, the stump of a cut-off segment): not delimited, so not a segment
+        tail = rng.choice(['\x1a', '   ', 'END OF FILE\n', 'SE' + ele_t + '12' + ele_t + '0001', ' ' + eol, 'IEA' + ele_t + '1', '\x00'])
+        if seg_t not in tail:
+            out.append(tail)
+            feats.add('text-after-last-terminator')
     return ''.join(out), feats
 
 
